@@ -849,6 +849,8 @@ MANIFEST = {
             "outside a record; PSUTIL_STRNCPY and the MAC formatter write only inside their buffers and terminate them, for every source string; "
             "the copied interface name is the first 15 bytes of the argument and the MAC text is the lower-case hex pairs joined by ':' "
             "(padded with :00 to six bytes by net_if_addrs), for every input and every previous buffer content; "
+            "net_if_addrs() over any interface list gives one row per node with an address of a known family, the hardware address with all "
+            "its sll_halen bytes, netmask and broadcast-or-peer by the flags, the Python layer only reordering and padding; "
             "CPU_SET on any long touches bit < 1024 or nothing; the getaffinity sizing loop terminates without int overflow for every kernel "
             "answer; check_pid_range and the argument conversion of all 17 entry points yield a value, a call into the OS or "
             "TypeError/OverflowError/ValueError/UnicodeError for every argument tuple -- no undefined behaviour; ionice() rejects an ioclass "
@@ -859,8 +861,8 @@ MANIFEST = {
             "a '#' in the device name comes back as \\043 and an empty device name shifts the fields (known findings, refuted theorems). The repaired defects are kept as refuted theorems about the legacy variants "
             "of the model (full-width utmp fields read across field borders and past the record; signed 'ioclass << 13' and 'speed_hi << 16'; "
             "strict UTF-8 on mount type/options). The compiled code is tied to the model by running the real extension built with clang "
-            "ASan+UBSan on generated utmp files, mount tables and an argument sweep over all entry points, each call in a forked child; a "
-            "sanitizer report is a failing input.",
+            "ASan+UBSan on generated utmp files, mount tables, interface lists fed through a getifaddrs() shim compiled at check time, and an argument sweep over all entry "
+            "points, each call in a forked child; a sanitizer report is a failing input.",
     "note": "Partial by nature: memory safety of the compiled C is observed (sanitizers) on the generated runs, not proved; Trusted: Coq kernel + "
             "vm_compute; hand-written model coq/C17/Model.v; record formats in coq/C17/Spec.v; glibc; the sanitizer runtime; the harness.",
 }
